@@ -604,11 +604,29 @@ int main(void)
 	}
 #elif MODE == M_INIT
 	{
+#ifdef INIT_SEC
+		/* a schema with a single section (created at initialisation) and context flags: the pre-created instance
+		 * carries the context's flags like every instance created later */
+		static cfg_opt_t isub[] = { CFG_INT("a", 7, CFGF_NONE), CFG_END() };
+		static cfg_opt_t decl[] = { CFG_INT("i", 3, CFGF_NONE), CFG_SEC("s", isub, CFGF_NONE), CFG_END() };
+#define INIT_FLAGS (CFGF_NOCASE | CFGF_IGNORE_UNKNOWN)
+#else
 		static cfg_opt_t decl[] = { CFG_INT("i", 3, CFGF_NONE), CFG_END() };
+#define INIT_FLAGS CFGF_NONE
+#endif
 		cfg_t *c;
 
 		arm();
-		c = cfg_init(decl, CFGF_NONE);
+		c = cfg_init(decl, INIT_FLAGS);
+#ifdef INIT_SEC
+		if (c != NULL && c->opts != NULL) {
+			cfg_t *is = cfg_opt_getnsec(&c->opts[1], 0);
+
+			V_ASSERT(c->flags == INIT_FLAGS, "[C01] a context carries the flags it was created with");
+			V_ASSERT(is != NULL && (is->flags & INIT_FLAGS) == INIT_FLAGS, "[C01] a single section created at initialisation carries the context's flags (case-insensitive names and ignore-unknown hold at every nesting depth)");
+			V_ASSERT(is != NULL && cfg_opt_size(&is->opts[0]) == 1 && cfg_opt_getnint(&is->opts[0], 0) == 7, "[C01] the section created at initialisation holds its declared defaults");
+		}
+#endif
 		V_ASSERT(n_abort == 0, "[C18] initialisation does not abort the process");
 		if (c == NULL) {
 			V_ASSERT(vf_failed, "[C18] initialisation only fails when an allocation failed");
